@@ -396,6 +396,61 @@ fn check_short_histories_large_m(m: usize, stats: &mut Stats) -> Outcome {
     Outcome::Ok
 }
 
+/// (f) long runs (a counter or cursor narrower than usize shows after 2^8 / 2^16 draws, blocks or resets, or from 2^16
+/// elements on): under a patterned script (choices 0, r-1, r/2, 1, ... cycling) every block of m draws without reset is a
+/// permutation; after `cycles` cycles of (a few draws, reset) m draws under the all-zero script equal a fresh instance's.
+fn check_long_runs(m: usize, draws: usize, cycles: usize, stats: &mut Stats) -> Outcome {
+    let pattern = |i: usize, r: usize| -> usize { [0, r - 1, r / 2, 1 % r, r / 3, (r - 1) / 2][i % 6] % r };
+    let r = guarded_mut(|| -> Result<(), String> {
+        // blocks without reset
+        let nblocks = (draws + m - 1) / m;
+        let mut fy = FYshuffle::new(m);
+        let mut i = 0usize;
+        for b in 0..nblocks {
+            let choices: Vec<usize> = (0..m).map(|t| pattern(i + t, m - t)).collect();
+            i += m;
+            let words = words_for_choices(m, 0, &choices);
+            let d = draw_n(&mut fy, &words, m);
+            if !is_perm(&d.out) {
+                return Err(format!("m={} no reset: block {} of m draws is not a permutation", m, b));
+            }
+            if !is_perm(fy.get_values()) {
+                return Err(format!("m={} no reset: get_values() is not a permutation after block {}", m, b));
+            }
+        }
+        // reset cycles
+        let zero_words: Vec<u64> = vec![word_for_k(0); m];
+        let fresh = {
+            let mut f2 = FYshuffle::new(m);
+            draw_n(&mut f2, &zero_words, m).out
+        };
+        let mut fy = FYshuffle::new(m);
+        let pre = m.min(3);
+        for c in 0..cycles {
+            let choices: Vec<usize> = (0..pre).map(|t| pattern(c + t, m - t)).collect();
+            let words = words_for_choices(m, 0, &choices);
+            let _ = draw_n(&mut fy, &words, pre);
+            fy.reset();
+            // the probe is part of the history (no extra reset, which would shift the count): for small m after every
+            // cycle, for large m after the last one
+            if m <= 300 || c + 1 == cycles {
+                let d = draw_n(&mut fy, &zero_words, m);
+                if d.out != fresh {
+                    return Err(format!("m={}: after {} cycles of ({} draws, reset) the next m draws differ from a fresh instance's", m, c + 1, pre));
+                }
+            }
+        }
+        Ok(())
+    });
+    stats.block_runs += 1;
+    stats.draws += (draws + cycles * 3 + if m <= 300 { cycles * m } else { m }) as u64;
+    match r {
+        Ok(Ok(())) => Outcome::Ok,
+        Ok(Err(w)) => Outcome::Violation(w),
+        Err(p) => Outcome::Violation(format!("m={} long run: panic {}", m, p)),
+    }
+}
+
 #[derive(Default)]
 struct Stats {
     scripts: u64,
@@ -483,6 +538,14 @@ pub fn run(ctx: &Ctx) -> i32 {
             return c;
         }
     }
+    let mut long: Vec<(usize, usize, usize)> = vec![(1, 70_000, 70_000), (2, 140_000, 70_000), (3, 200_000, 70_000), (5, 330_000, 70_000), (255, 70_000, 70_000), (256, 70_000, 66_000), (257, 70_000, 66_000)];
+    long.extend_from_slice(&[(65_535, 131_070, 3), (65_536, 131_072, 3), (65_537, 131_074, 3), (100_003, 200_006, 2)]);
+    for &(m, draws, cycles) in &long {
+        let o = check_long_runs(m, draws, cycles, &mut st);
+        if let Err(c) = handle(ctx, o, format!("long-run:m={}", m), json!({"kind": "long-run", "m": m, "draws": draws, "cycles": cycles})) {
+            return c;
+        }
+    }
     if st.ref_mismatch > 0 {
         ctx.note(format!("{} scripts give an order different from the textbook Fisher-Yates reference (informational; the bijection is what is required)", st.ref_mismatch));
     }
@@ -504,7 +567,7 @@ pub fn run(ctx: &Ctx) -> i32 {
         "exhaustive": true,
         "evaluations": execs,
         "distinct_nontrivial": st.distinct_perms,
-        "rule": "every script (one generator word per draw, the midpoint of each of the r=m-cursor equal sub-intervals) is run on the real FYshuffle; a case is distinct by its output order; (a) script->order is a bijection onto the m! orders, each script being a product of intervals of measure prod 1/r up to one 2^-52 word per boundary, (b) interval ends and the largest generator value stay in range for every r<=64 and selected large r, (c) every pre-reset history then reset equals a fresh instance (all histories for m<=4(5); for m in {64,128,192,256,1000,(4096)} all histories of 1-2 draws and small-choice histories of 3-4 draws), (d) every block of m draws without reset is a permutation",
+        "rule": "every script (one generator word per draw, the midpoint of each of the r=m-cursor equal sub-intervals) is run on the real FYshuffle; a case is distinct by its output order; (a) script->order is a bijection onto the m! orders, each script being a product of intervals of measure prod 1/r up to one 2^-52 word per boundary, (b) interval ends and the largest generator value stay in range for every r<=64 and selected large r, (c) every pre-reset history then reset equals a fresh instance (all histories for m<=4(5); for m in {64,128,192,256,1000,(4096)} all histories of 1-2 draws and small-choice histories of 3-4 draws), (d) every block of m draws without reset is a permutation, (e) long runs under one patterned script: >= 70000 draws without reset and >= 66000 cycles of (3 draws, reset, m draws compared with a fresh instance) for m in {1,2,3,5,255,256,257}, two full blocks and a few cycles for m in {65535,65536,65537,100003}",
         "max_m_bijection": max_m,
         "scripts": st.scripts,
         "distinct_orders_total": st.distinct_perms,
@@ -537,6 +600,7 @@ pub fn replay(_ctx: &Ctx, case: &Value) -> Result<(bool, String), String> {
         }
         Some("history") => check_history(case["m"].as_u64().ok_or("m")? as usize, case["hmax"].as_u64().ok_or("hmax")? as usize, &mut st),
         Some("short-history") => check_short_histories_large_m(case["m"].as_u64().ok_or("m")? as usize, &mut st),
+        Some("long-run") => check_long_runs(case["m"].as_u64().ok_or("m")? as usize, case["draws"].as_u64().ok_or("draws")? as usize, case["cycles"].as_u64().ok_or("cycles")? as usize, &mut st),
         Some("blocks") => check_blocks(case["m"].as_u64().ok_or("m")? as usize, case["nblocks"].as_u64().ok_or("nblocks")? as usize, &mut st),
         _ => return Err("unknown case kind".into()),
     };
